@@ -89,7 +89,15 @@ func drawC14(t *rapid.T) C14Case {
 	}
 	c.Data = gen.DrawRecipeN(t, total)
 	c.ErrKind = rapid.IntRange(0, 3).Draw(t, "errkind")
-	c.Short = rapid.SampledFrom([]int{0, 0, 1, 7, 100, 5000}).Draw(t, "short")
+	c.Short = rapid.SampledFrom([]int{0, 0, 1, 7, 100, 5000, -1}).Draw(t, "short")
+	if c.Set.Pkg == "gzip" && rapid.Bool().Draw(t, "gzhdr") {
+		// header strings and extra data are separate destination calls: faults can land between them
+		c.Set.Hdr = &GzHdr{Name: rapid.StringMatching(`[a-z]{1,12}`).Draw(t, "name"), Comment: rapid.StringMatching(`[a-z ]{1,12}`).Draw(t, "comment")}
+		if rapid.Bool().Draw(t, "gzextra") {
+			c.Set.Hdr.HasX = true
+			c.Set.Hdr.Extra = []byte(rapid.StringMatching(`[a-z]{0,9}`).Draw(t, "extra"))
+		}
+	}
 	if rapid.IntRange(0, 2).Draw(t, "reset") == 0 {
 		h := drawHistory(t, c.Set, "after", false)
 		h.Hdr = nil
@@ -226,6 +234,7 @@ func checkC14(c C14Case, record func(k int, nontrivial bool, labels []string)) (
 			d2 := h.Data.Bytes()
 			s2 := &iox.Sink{}
 			w.Reset(s2)
+			setHdr(w, c.Set.Hdr) // Reset clears gzip header fields; the new Writer below is constructed with them
 			got, _ := runOps(w, s2, d2, h.Ops, nil)
 			s3 := &iox.Sink{}
 			fresh, err := newAnyWriter(s3, c.Set)
@@ -249,6 +258,12 @@ func checkC14(c C14Case, record func(k int, nontrivial bool, labels []string)) (
 			}
 			if c.Short > 0 {
 				labels = append(labels, "short-write")
+			}
+			if c.Short < 0 {
+				labels = append(labels, "full-count-with-error")
+			}
+			if c.Set.Hdr != nil {
+				labels = append(labels, "gzip-header-fields")
 			}
 			record(k, res0[failOp].K != "W" || k > 1, labels)
 		}
